@@ -11,7 +11,8 @@ use crate::dml::{dml_menu, dop_class, run_dml, DOp, DSpec, DSys, DmlModel, Kind}
 use crate::explore::{explore, replay_ops, Fail};
 use crate::lex::{lex, Dialect, LexTok, Tok};
 use crate::qmodel::*;
-use crate::report::Report;
+use crate::lex::DIALECTS;
+use crate::report::{Report, Violation};
 use crate::smodel::{bind_value, row_list, row_multiset, select_menu, with_db, SelModel, SelSys};
 use crate::util::{catch, Counter};
 use sea_query::*;
@@ -335,6 +336,88 @@ pub fn check_dml(kind: Kind, sys: &DSys, spec: &DSpec) -> Vec<Fail> {
     fails
 }
 
+/// expression trees, three-way: every tree with up to 2 (quick) / 3 (thorough) operator nodes over the operators whose
+/// meaning is the same on the three engines (arithmetic without division, shifts, bit operators, comparisons, AND / OR /
+/// NOT, IS [NOT] NULL) is rendered for each backend; each text is read by ITS OWN dialect's reference grammar, the reading
+/// is printed fully parenthesised and evaluated by the SQLite engine over the value table of C05. The three readings must
+/// evaluate alike row by row: the same builder calls denote the same expression everywhere.
+fn run_expr_trees(rep: &Arc<Report>) -> (u64, u64) {
+    use crate::exprparse::{parse_expression, print_full};
+    use crate::props::c05::{build, eval_sqlite, ops, render, trees, Class, Ctor, E};
+    let portable = ["And", "Or", "Equal", "NotEqual", "SmallerThan", "GreaterThan", "SmallerThanOrEqual", "GreaterThanOrEqual", "Add", "Sub", "Mul", "Mod", "LShift", "RShift", "BitAnd", "BitOr"];
+    let all_ops: Vec<_> = DIALECTS.iter().map(|d| ops(*d)).collect();
+    let base = &all_ops[0];
+    let mut cs: Vec<Ctor> = (0..base.len()).filter(|i| portable.contains(&base[*i].name)).map(Ctor::Bin).collect();
+    // the shared operators have the same index in every dialect's table
+    for o in &all_ops {
+        for c in &cs {
+            if let Ctor::Bin(i) = c {
+                assert_eq!(o[*i].name, base[*i].name);
+            }
+        }
+    }
+    cs.push(Ctor::Not);
+    cs.push(Ctor::IsNull(false));
+    cs.push(Ctor::IsNull(true));
+    let max_nodes = if rep.thorough() { 3 } else { 2 };
+    let mut memo = std::collections::BTreeMap::new();
+    let mut all: Vec<E> = vec![];
+    for n in 1..=max_nodes {
+        all.extend(trees(n, &cs, &mut memo));
+    }
+    let evaluated = crate::util::Counter::new();
+    let skipped = crate::util::Counter::new();
+    let shape = |e: &E| -> String {
+        fn go(e: &E, ops: &[crate::props::c05::OpDef]) -> String {
+            match e {
+                E::Bin(i, l, r) => format!("{:?}({}, {})", ops[*i].class, go(l, ops), go(r, ops)),
+                E::Not(x) => format!("Not({})", go(x, ops)),
+                E::IsNull(n, x) => format!("{}({})", if *n { "IsNotNull" } else { "IsNull" }, go(x, ops)),
+                _ => "c".into(),
+            }
+        }
+        go(e, base)
+    };
+    let _ = Class::Logic;
+    crate::util::par_items(&all, |_w, e| {
+        let mut rows: Vec<(Dialect, String, Option<Vec<String>>)> = vec![];
+        for (k, d) in DIALECTS.iter().enumerate() {
+            let mut n = 0;
+            let built = match catch(|| build(e, *d, &all_ops[k], &mut n)) {
+                Ok(b) => b,
+                Err(_) => return,
+            };
+            let Ok(sql) = render(&built, *d) else { return };
+            let Some(expr_sql) = sql.strip_prefix("SELECT ") else { return };
+            match parse_expression(*d, expr_sql) {
+                Ok(p) => rows.push((*d, expr_sql.to_string(), eval_sqlite(&print_full(&p)))),
+                Err(_) => {
+                    // a text its own grammar rejects is C05's finding; nothing to compare here
+                    skipped.inc();
+                    return;
+                }
+            }
+        }
+        if rows.iter().any(|r| r.2.is_none()) {
+            skipped.inc();
+            return;
+        }
+        evaluated.inc();
+        let sqlite = rows.iter().find(|r| r.0 == Dialect::Sqlite).unwrap().clone();
+        for r in &rows {
+            if r.2 != sqlite.2 {
+                rep.raw_failures.inc();
+                rep.violation(Violation {
+                    key: format!("expr-tree|{}|reads-differently-from-sqlite|{}", r.0.name(), shape(e)),
+                    what: format!("built {}: {} renders {:?}, sqlite renders {:?}; read by their own grammars and evaluated over the value table they give {:?} vs {:?}", crate::props::c05::show(e, base), r.0.name(), r.1, sqlite.1, r.2.as_ref().unwrap(), sqlite.2.as_ref().unwrap()),
+                    case: json!({"kind": "expr-tree", "tree": crate::props::c05::show(e, base), "dialect": r.0.name()}),
+                });
+            }
+        }
+    });
+    (evaluated.get(), skipped.get())
+}
+
 pub fn run(rep: &Arc<Report>) {
     let (ds, dd) = if rep.thorough() { (5, 5) } else { (4, 4) };
     let m = SelModel { name: "select", menu: portable_select_menu(rep.thorough()), checks: vec![Box::new(check_select)], sqlite_only: true };
@@ -352,6 +435,9 @@ pub fn run(rep: &Arc<Report>) {
         exhaustive &= s2.exhaustive;
     }
     rep.set("portable_select_menu_size", json!(m.menu.len()));
+    let (te, ts) = run_expr_trees(rep);
+    rep.set("expression_trees_evaluated_three_way", json!(te));
+    rep.set("expression_trees_not_evaluable", json!(ts));
     rep.set("states", json!(states));
     rep.set("transitions", json!(transitions));
     rep.set("max_depth", json!({"select": ds, "dml": dd}));
@@ -369,6 +455,11 @@ pub fn run(rep: &Arc<Report>) {
 }
 
 pub fn replay(case: &serde_json::Value) -> Option<String> {
+    if case["kind"].as_str() == Some("expr-tree") {
+        let rep = Arc::new(Report::new("C09", "thorough"));
+        run_expr_trees(&rep);
+        return rep.find_violation(&format!("expr-tree|{}|", case["dialect"].as_str().unwrap_or("")));
+    }
     let ops: Vec<String> = case["ops"].as_array().map(|a| a.iter().filter_map(|x| x.as_str().map(String::from)).collect()).unwrap_or_default();
     match case["model"].as_str().unwrap_or("") {
         "select" => replay_ops(&SelModel { name: "select", menu: portable_select_menu(true), checks: vec![Box::new(check_select)], sqlite_only: true }, &ops),
